@@ -19,6 +19,7 @@ import math
 import os
 import random
 import re
+import time
 from concurrent.futures import ThreadPoolExecutor
 
 from lib.kvlib import *
@@ -35,7 +36,7 @@ MANIFEST = dict(
     level="other", design_ref="DESIGN.md 8 (C13), 10",
     technique="(A) TLA+ model of the delay effect's buffer handling (DelayLine.tla) checked exhaustively by TLC against the property-level echo definition for every input, configuration and partition into process calls; every TLC-generated behaviour replayed on the real delay effect and validated by TLC. (B) TLA+ law checker (P_C13/T_C13) over integer observations of paired runs of all eight real built-in effects recorded by a seeded driver",
     text="(A, genuine model) The delay line - ring of D frames, sub-chunking of each process call by the buffer length, feedback gain and a nested gain in the feedback path in {0,1}, mix in {dry,wet}, integer samples - is modelled from delay.rs and TLC checks for every input of up to 8 samples, D = 1..3 (4 thorough) and every partition of the input into process calls that the outputs equal the per-sample echo definition out[n] = dry*in[n] + wet*echo[n], line[n] = in[n] + G*line[n-D] (so: chunk independence and echo timing), with state invariants (buffer = last D values of the recurrence) and reachability witnesses; every behaviour TLC generates (all partitions x index-coded inputs x configurations) is replayed on the real DelayBuilder effect with exact dyadic samples and TLC validates each recorded process call against the same definition and against the model. (B, law checking over recorded runs) For compressor, delay (also with one effect nested in its feedback path), distortion, EQ filter, filter, panning control, reverb and volume control, built through their public builders, the driver records paired runs and TLC checks: neutral setting (mix 0, 0 dB, centre, 0 dB EQ gain, hard clip at 0 dB) => output == input sample for sample; zero input from a fresh effect => zero output; finite input => no panic and finite output over long runs (100k frames quick, 1M thorough) at parameter range edges; superposition and scaling for the linear effects within a stated, parameter-derived tolerance; equal output (every f32 sample ==) for two different partitions into process calls; for seeded boundary-biased parameters, signals (noise, impulse, step, DC, full scale, subnormals, sine, burst) and sample rates 8 kHz..192 kHz.",
-    note="Only part A is a model explored by TLC; its exhaustiveness is over the stated small bounds and gains 0/1 (no fractional feedback, no nested delay). Part B is sampled, not exhaustive: TLC adds no exploration there, it evaluates the laws on integer observations (windows of round(x*1e7/mag) for the first/last 16 frames, whole-run digests - counts of differing/non-zero/non-finite samples and the largest deviation - computed by the driver). Parameters are constant during a run (no tweens or modulators: that is C11/C06 territory). Linearity tolerance: 11e-7 * mag * K, mag = peak magnitude of the runs involved, K = ceil(2*sqrt(R*Tm)*A) from the effect parameters (R roundings per frame, Tm memory of the recursion in frames, A internal gain; formula in checks/c13.py); configurations with K > 2000 are checked for the other laws only. Compressor ratios below 0.25 (expansion by hundreds of dB), delay feedback above 0 dB and EQ q = 0 are treated as outside the documented ranges. The first echo's level (feedback gain before or after the output tap) is not fixed by the documentation; either is accepted if used consistently. Delay times shorter than one frame and distortion drive <= -60 dB are separate scenario classes (known defects D7/D8), judged only once recorded in known_findings.json.")
+    note="Only part A is a model explored by TLC; its exhaustiveness is over the stated small bounds and gains 0/1 (no fractional feedback, no nested delay). Part B is sampled, not exhaustive: TLC adds no exploration there, it evaluates the laws on integer observations (windows of round(x*1e7/mag) for the first/last 32 frames, whole-run digests - counts of differing/non-zero/non-finite samples and the largest deviation - computed by the driver). Parameters are constant during a run (no tweens or modulators: that is C11/C06 territory). Linearity tolerance: 11e-7 * mag * K, mag = peak magnitude of the runs involved, K = ceil(2*sqrt(R*Tm)*A) from the effect parameters (R roundings per frame, Tm memory of the recursion in frames, A internal gain; formula in checks/c13.py); configurations with K > 2000 are checked for the other laws only. Compressor ratios below 0.25 (expansion by hundreds of dB), delay feedback above 0 dB and EQ q = 0 are treated as outside the documented ranges. The first echo's level (feedback gain before or after the output tap) is not fixed by the documentation; either is accepted if used consistently. Delay times shorter than one frame and distortion drive <= -60 dB are separate scenario classes (known defects D7/D8), judged only once recorded in known_findings.json.")
 
 KMAX = 2000
 RATES = [8000, 11025, 22050, 44100, 48000, 88200, 96000, 192000]
@@ -67,8 +68,7 @@ def model_check(res, tier):
     if tier == "quick":
         jobs.append(("DelayLine N=7 vals={0,1} D=1..3 all partitions", dl_cfg(7, [0, 1], [1, 2, 3], 7, "all", DL_INVS), 4, None))
     else:
-        jobs.append(("DelayLine N=8 vals={0,1} D=1..4 all partitions", dl_cfg(8, [0, 1], [1, 2, 3, 4], 8, "all", DL_INVS), 4, None))
-        jobs.append(("DelayLine N=7 vals={-1,0,1} D=1..3 all partitions", dl_cfg(7, "signed", [1, 2, 3], 7, "all", DL_INVS), 4, None))
+        jobs.append(("DelayLine N=8 vals={-1,0,1} D=1..4 all partitions", dl_cfg(8, "signed", [1, 2, 3, 4], 8, "all", DL_INVS), 4, None))
     # a delay shorter than one frame: the model panics (chunks_mut(0)); the monitor calls that a violation, named as known finding
     jobs.append(("DelayLine D=0 (known finding)", dl_cfg(4, [0, 1], [0], 4, "all", "INVARIANTS PropertyHolds TypeOK"), 1, None))
     if SUBFRAME_PANICS:
@@ -325,7 +325,7 @@ def law_scenario(rng, t, n, src, cls="normal", fx_over=None):
 
 def gen_laws(rng, tier):
     scen = []
-    per = 80 if tier == "quick" else 600
+    per = 80 if tier == "quick" else 2500
     for t in TYPES:
         for _ in range(per):
             n = rng.choice([1, 2, 3, 5, 8, 17, 32, 33, 100, 257, 1000, 4096])
@@ -333,7 +333,7 @@ def gen_laws(rng, tier):
     # long runs at the edges of the parameter ranges (finite in => finite out, no drift between partitions)
     long_n = 100000 if tier == "quick" else 1000000
     for t in TYPES:
-        for _ in range(1 if tier == "quick" else 3):
+        for _ in range(1 if tier == "quick" else 5):
             s = law_scenario(rng, t, long_n, "long")
             s["a"]["k"] = rng.choice(["full", "noise", "dc", "step"])
             s["a"]["amp"] = 1.0
@@ -428,6 +428,7 @@ def run(tier):
         scen_dl = gen.result()
         mc.result()
     n_tlc = len(scen_dl)
+    log("model checking and behaviour generation done at %.0fs" % (time.time() - res.t0))
     scen_dl += gen_dl_random(rng, 300 if tier == "quick" else 3000)
     scen_law = gen_laws(rng, tier) + gen_defect_classes(rng)
     scen = scen_dl + scen_law
@@ -439,7 +440,9 @@ def run(tier):
     tp = os.path.join(OUT, "c13", "trace.ndjson")
     write_ndjson(sp, [{k: v for k, v in s.items() if k != "exp"} for s in scen])
     run_kv("c13", sp, tp, timeout=3000)
+    log("%d sessions executed on the real effects at %.0fs" % (len(scen), time.time() - res.t0))
     bad, drift, n_events = validate_parts(tp)
+    log("%d events validated by TLC at %.0fs" % (n_events, time.time() - res.t0))
     if any(b["reason"] == "harness_malformed" for b in bad):
         raise ToolError("malformed observation: %s" % [b for b in bad if b["reason"] == "harness_malformed"][:3])
 
@@ -493,7 +496,7 @@ def run(tier):
     res.samples = [{k: v for k, v in s.items() if k != "exp"} for s in pick_]
     res.assumptions = [
         "f32 arithmetic on the integer/256 samples of the delay-line replays is exact (the driver flags any output that is not on the grid)",
-        "whole-run digests (counts and largest deviation) are computed by the driver in f64 from the f32 outputs; TLC sees them and the first/last 16 frames of every run",
+        "whole-run digests (counts and largest deviation) are computed by the driver in f64 from the f32 outputs; TLC sees them and the first/last 32 frames of every run",
         "linearity tolerance 11e-7 * mag * K with K from checks/c13.py conditioning(); sessions with K > %d are not checked for linearity" % KMAX,
         "effect parameters are constant during a run; dt = 1/sample_rate; slices never exceed the internal buffer size"]
     return res.finish(
